@@ -147,7 +147,7 @@ SPEC = {
     "modelled": ["Go operators + - * / << >> & and conversions as Int arithmetic with two's-complement wrap (validated differentially)",
                  "bits.Mul64 / bits.Div64 specified as 128-bit arithmetic", "error values mapped to overflow / divzero by the sentinel they wrap"],
     "assumptions": ["the shift count parameter is a uint8 (0..255, pinned by C19_signatures); the theorem covers every natural count",
-                    "a defined type (`type Amount uint64`) has the arithmetic of its underlying type and generic code cannot tell them apart: the translated subset has no type switch, no any(x), no reflection (such a tree is rejected by the translator); the constraint's type set is pinned by C19_integer_constraint and 8 defined types are instantiated in the harness",
+                    "a defined type (`type Amount uint64`) has the arithmetic of its underlying type and generic code cannot tell them apart: the only way for translated code to tell them apart is a type switch over any(x), which the translator models (module variable named_, harness kinds du8..di64); any(x) elsewhere and reflection are rejected by the translator; the constraint's type set is pinned by C19_integer_constraint and 8 defined types are instantiated in the harness",
                     "error identity: errors.Is is modelled by the set of sentinels reachable through %w / Join (Hive/Model/SafeMathErr.lean); the message arguments of the ierrors wrappers are integers, never errors; default build tags (ierrors_no_stacktrace.go)"],
     "manifest": {
         "text": "Regenerated model: safe_math.go is translated to Lean on every run and the theorems are re-proved against it, one proof module per function, so that a change breaks exactly the theorems of the functions whose behaviour it changes (the check names them and the theorems that still hold for the changed tree). For every integer type of positive width and either signedness (all eight Go types and every defined type over them), every in-range operand pair and every shift count: SafeAdd/Sub/Mul/Div/LeftShift return exactly the mathematical result when representable and the overflow (or division-by-zero) error otherwise (C19_add/sub/mul/div/shl_exact); likewise SafeMulUint64, SafeMulInt64 and Safe64MulDiv (which never reaches a panicking bits.Div64). Both directions are separate theorems per function: C19_<f>_never_wraps (a value returned without error is the exact result), C19_<f>_never_spurious (a representable result is returned), C19_<f>_error_iff (the error exactly when the result does not fit, never the other error, never a panic) for f in add, sub, mul, div, shl, mulU64, mulI64, and C19_mulDiv64_clauses / _never_spurious; combined: C19_never_wraps, C19_never_spurious, C19_shl_clauses, C19_statement_holds (the eight Go types together). The identity of the returned error (errors.Is against the two sentinels) is part of the model: error sites, sentinel definitions and the ierrors wrapper bodies are regenerated and checked by C19_error_identity / C19_sentinels_distinct / C19_ierrors_wrappers. The modelled operator semantics meet their specification (C19_wrap_spec, C19_mul64_spec, C19_div64_spec, C19_bitLen_spec, C19_trailingZeros_spec, C19_add64_sub64_spec). The tie runs all 65 536 operand pairs of both 8-bit types and all 256 shift counts through the real functions, the generated definitions and a math/big oracle, boundary-biased 16/32/64-bit samples, a systematic boundary grid (7.9 M oracle-only evaluations over 16 instantiated types) and a boundary enumeration shared between model and implementation (2.5 M evaluations each: the Lean driver searches the regenerated model for a counterexample to the specification, the harness searches the real code, the first counterexamples are reported side by side); the thorough tier enumerates all 2^32 operand pairs of the 16-bit types (every pair with a representable result, every division, every shift; unrepresentable sums/differences/products in boundary bands and every 7th elsewhere).",
